@@ -456,9 +456,7 @@ func (e *Engine) scanErrGlobals() {
 						cand[g] = true
 					}
 				case *ssa.MakeInterface:
-					if _, ok := v.X.(*ssa.Alloc); ok {
-						cand[g] = true
-					}
+					cand[g] = true
 				}
 			}
 		}
